@@ -14,7 +14,7 @@ def decoder_for(codec):
 
 def gen_stream_workload(r, max_values=4, small=False, force_codec=None, allow_f2=None,
                         constraints=False, constructed_default=False, variants=True, scale=True, rawdump=False,
-                        untyped_of=False):
+                        untyped_of=False, octet_encoding=False):
     codec = force_codec or r.choice(CODEC_CHOICES)
     cfg = U.GenCfg()
     cfg.max_depth = r.choice([1, 2, 3, 3]) if not small else r.choice([1, 2])
@@ -39,6 +39,7 @@ def gen_stream_workload(r, max_values=4, small=False, force_codec=None, allow_f2
     cfg.allow_constraints = constraints
     cfg.allow_constructed_default = constructed_default
     cfg.allow_untyped_of = untyped_of
+    cfg.allow_octet_encoding = octet_encoding
     indef = ('indef' in codec) or codec == 'cer'
     if allow_f2 is None:
         # explicitly tagged non-string primitives in indefinite mode are not well framed (F2)
